@@ -146,6 +146,12 @@ def plan(rng, tier):
                   ranges._probes(rng, len(g.model.d))[0]]
         elif r < 0.42 and not hk:
             op = twin._modfunc(rng, g, dom, kind)
+        elif r < 0.45 and mapping and dom.fam[1] != "s":
+            # byValue(min): with a usable minimum, or (native values) one
+            # that cannot be converted -- a failing call of its own kind
+            bv = ops.bad_value_spec(dom.fam)
+            op = ["byValue", bv if bv is not None and rng.random() < 0.4
+                  else g.val()]
         else:
             if rng.random() < 0.3:
                 g.phase = rng.choice(["grow", "mixed", "shrink"])
